@@ -14,6 +14,9 @@ using namespace std;
 #ifndef NSTEPS
 #define NSTEPS 2
 #endif
+#ifndef OPMAX
+#define OPMAX 4   // history calls 0..OPMAX: setValue, setConstraint, removeConstraint, copy+assign back, assign from another parameter
+#endif
 static const double INF = std::numeric_limits<double>::infinity();
 
 // membership specification, written independently of the implementation
@@ -52,6 +55,8 @@ public:
   void add(Parameter* p) { addParameter_(p); }
 };
 
+// a precision: zero (the default) or any positive real
+static double nonneg(const string& n) { double v = symd(n); SYM_ASSUME(v >= 0); return v; }
 static double anyValue(const string& n) {
   double v = symd(n);
 #ifdef FPMODE
@@ -100,13 +105,17 @@ extern "C" void verif_harness() {
     auto c = mk(i);
     Parameter p("x", 1.0);            // state built without relying on the constructor check
     p.setValue(v0); p.setConstraint(c);
-    SYM_ASSERT(p.getValue() == v0 && p.hasConstraint(), "state construction");
+    // precision: requests closer than precision/2 to the current value are ignored (documented); any real >= 0 (0 is the default)
+    double pr = nonneg("precision"); p.setPrecision(pr);
+    SYM_ASSERT(p.getValue() == v0 && p.hasConstraint() && p.getPrecision() == pr, "state construction");
     int op = __sym_choose("op", 0, 6);
     double v = anyValue("v");
+    bool ignored = (v - v0 <= pr / 2) && (v0 - v <= pr / 2);
     bool threw = false;
     if (op == 0) {
       try { p.setValue(v); } catch (ConstraintException&) { threw = true; }
-      if (threw) SYM_ASSERT(p.getValue() == v0 && !spec(i.l, i.u, i.il, i.iu, v), "setValue: raise must leave the value and only happen for rejected values");
+      if (threw) SYM_ASSERT(p.getValue() == v0 && !spec(i.l, i.u, i.il, i.iu, v) && !ignored, "setValue: raise must leave the value and only happen for rejected values");
+      else if (ignored) SYM_ASSERT(p.getValue() == v0, "setValue: a request within half the precision changed the value");
       else SYM_ASSERT(p.getValue() == v, "setValue: accepted but not stored");
       SYM_ASSERT(p.getConstraint().get() == c.get(), "setValue changed the constraint");
     } else if (op == 1) {
@@ -118,12 +127,14 @@ extern "C" void verif_harness() {
       auto old = p.removeConstraint();
       SYM_ASSERT(old.get() == c.get() && !p.hasConstraint() && p.getValue() == v0, "removeConstraint");
       p.setValue(v);
-      SYM_ASSERT(p.getValue() == v, "unconstrained setValue");
+      SYM_ASSERT(p.getValue() == (ignored ? v0 : v), "unconstrained setValue");
     } else if (op == 3) {
       Itv j = anyInterval("d"); double w = anyValue("w"); SYM_ASSUME(spec(j.l, j.u, j.il, j.iu, w));
-      Parameter q("y", 1.0); q.setValue(w); q.setConstraint(mk(j));
+      Parameter q("y", 1.0); q.setValue(w); q.setConstraint(mk(j)); double pr2 = nonneg("precision2"); q.setPrecision(pr2);
       p = q;
       SYM_ASSERT(p.getValue() == w && spec(j.l, j.u, j.il, j.iu, p.getValue()) && p.getConstraint()->isCorrect(p.getValue()), "assignment");
+      SYM_ASSERT(p.getPrecision() == pr2 && p.getName() == "y", "assignment: name or precision not taken over");
+      Parameter r(p); SYM_ASSERT(r.getValue() == w && r.getConstraint()->isCorrect(r.getValue()) && r.getPrecision() == pr2, "copy of the assigned parameter");
     } else if (op == 4 || op == 5) {   // list-level updates
       ParameterList pl; pl.addParameter(p);
       bool hadAll = true;
@@ -133,7 +144,9 @@ extern "C" void verif_harness() {
       } catch (ConstraintException&) { threw = true; }
       const Parameter& r = pl.parameter("x");
       SYM_ASSERT(spec(i.l, i.u, i.il, i.iu, r.getValue()), "list-level update: parameter holds a rejected value");
-      if (threw) SYM_ASSERT(r.getValue() == v0 && !spec(i.l, i.u, i.il, i.iu, v), "list-level update: raise must leave the value");
+      // (the bulk form validates every request before writing, so it may also refuse a rejected value that the single-value form would have ignored as within the precision)
+      if (threw) SYM_ASSERT(r.getValue() == v0 && !spec(i.l, i.u, i.il, i.iu, v) && (op == 5 || !ignored), "list-level update: raise must leave the value");
+      else if (ignored) SYM_ASSERT(r.getValue() == v0, "list-level update: a request within half the precision changed the value");
       else SYM_ASSERT(r.getValue() == v, "list-level update: accepted but not stored");
       (void)hadAll;
     } else {   // owner-level update
@@ -141,29 +154,35 @@ extern "C" void verif_harness() {
       try { o.setParameterValue("x", v); } catch (ConstraintException&) { threw = true; }
       double rv = o.getParameterValue("x");
       SYM_ASSERT(spec(i.l, i.u, i.il, i.iu, rv), "owner-level update: parameter holds a rejected value");
-      if (threw) SYM_ASSERT(rv == v0 && !spec(i.l, i.u, i.il, i.iu, v), "owner-level update: raise must leave the value");
+      if (threw) SYM_ASSERT(rv == v0 && !spec(i.l, i.u, i.il, i.iu, v) && !ignored, "owner-level update: raise must leave the value");
+      else if (ignored) SYM_ASSERT(rv == v0, "owner-level update: a request within half the precision changed the value");
       else SYM_ASSERT(rv == v, "owner-level update: accepted but not stored");
     }
     SYM_ASSERT(!p.hasConstraint() || p.getConstraint()->isCorrect(p.getValue()), "invariant broken after the step");
     break; }
-  case 4: {   // histories of 3 calls starting at construction, including calls that raise
+  case 4: {   // histories of NSTEPS calls starting at construction (any precision), including calls that raise
     Itv i = anyInterval("c", false); double v = anyValue("v");
     shared_ptr<IntervalConstraint> cur = mk(i);
     Itv curI = i; bool has = true;
     Parameter* p = nullptr;
-    try { p = new Parameter("x", v, cur); } catch (ConstraintException&) { SYM_ASSERT(!spec(i.l, i.u, i.il, i.iu, v), "constructor raised for accepted value"); break; }
+    double pr = nonneg("precision");
+    try { p = new Parameter("x", v, cur, pr); } catch (ConstraintException&) { SYM_ASSERT(!spec(i.l, i.u, i.il, i.iu, v), "constructor raised for accepted value"); break; }
     double cv = v;
     for (int step = 0; step < NSTEPS; step++) {
-      int op = __sym_choose(("op" + to_string(step)).c_str(), 0, 3);
+      int op = __sym_choose(("op" + to_string(step)).c_str(), 0, OPMAX);
       string s = to_string(step);
       if (op == 0) { double w = anyValue("w" + s); bool t = false; try { p->setValue(w); } catch (ConstraintException&) { t = true; }
-        if (t) SYM_ASSERT(has && !spec(curI.l, curI.u, curI.il, curI.iu, w), "setValue raised for an accepted value"); else cv = w; }
+        bool ignored = (w - cv <= pr / 2) && (cv - w <= pr / 2);    // requests within half the precision of the current value are ignored
+        if (t) SYM_ASSERT(has && !ignored && !spec(curI.l, curI.u, curI.il, curI.iu, w), "setValue raised for an accepted value"); else if (!ignored) cv = w; }
+      else if (op == 4) {   // assignment from another constrained parameter with its own value, constraint and precision
+        Itv j = anyInterval("e" + s, false); double w = anyValue("y" + s); SYM_ASSUME(spec(j.l, j.u, j.il, j.iu, w)); auto e = mk(j); double pr2 = nonneg("precision" + s);
+        Parameter q("y", w, e, pr2); *p = q; cv = w; cur = e; curI = j; has = true; pr = pr2; }
       else if (op == 1) { Itv j = anyInterval("d" + s, false); auto d = mk(j); bool t = false; try { p->setConstraint(d); } catch (ConstraintException&) { t = true; }
         if (!t) { cur = d; curI = j; has = true; } else SYM_ASSERT(!spec(j.l, j.u, j.il, j.iu, cv), "setConstraint raised although value accepted"); }
       else if (op == 2) { p->removeConstraint(); has = false; }
       else { Parameter q(*p); *p = q; }
       SYM_ASSERT(p->getValue() == cv, "history: value differs from the last accepted request");
-      SYM_ASSERT(p->hasConstraint() == has, "history: constraint presence differs");
+      SYM_ASSERT(p->hasConstraint() == has, "history: constraint presence differs"); SYM_ASSERT(p->getPrecision() == pr, "history: precision differs");
       if (has) SYM_ASSERT(p->getConstraint().get() == cur.get() && spec(curI.l, curI.u, curI.il, curI.iu, p->getValue()), "history: parameter holds a value its constraint rejects");
     }
     delete p;
